@@ -158,10 +158,7 @@ func registerAPIModels() {
 	// verifAtom(name) string : a string known only up to ==, < (order-type abstraction)
 	apiModels["verifAtom"] = func(it *Interp, fr *frame, fn *ssa.Function, args []Value) Value {
 		name := argStr(args[0])
-		r := it.newNondet(name, "atom", SInt)
-		if !it.ex.replaying() {
-			it.ex.solver.Assert(intCmp(">=", r, mkIntConst(0)))
-		}
+		r := it.newNondet(name, "atom", rankBits)
 		return Str{atom: r, aname: name}
 	}
 	apiModels["verifMaybeNil"] = func(it *Interp, fr *frame, fn *ssa.Function, args []Value) Value {
